@@ -372,7 +372,9 @@ def run_history(ops, ctx, tm, fsr, check_every_step, init=INIT):
         if exp_T is not None:
             ctx.clause("model.pose")
             TM, taa = new_obs[op["t"]]
-            sc = max(1.0, tol.maxabs(exp_T[:3, 3]))
+            # largest translation in play: operands whose matrix carries a rotation below the 1e-6 cut-off lose it when an
+            # operation goes through the six-vector, which moves a point at distance d by up to 1e-6 d
+            sc = max([1.0, tol.maxabs(exp_T[:3, 3])] + [tol.maxabs(o[0][:3, 3]) for o in obs])
             okr, er = tol.close(TM[:3, :3], exp_T[:3, :3], tol.ABS5)
             okp, ep = tol.close(TM[:3, 3], exp_T[:3, 3], tol.ABS5 * sc)
             okv, ev = True, 0.0
